@@ -498,6 +498,30 @@ mod verif_cex_commit {
         drop(db);
         let _ = std::fs::remove_file(&p);
     }
+    // ---- C10 for space freed by DELETING A BUCKET that holds values of several pages: fill a scratch bucket with blobs, commit,
+    // delete the bucket, commit, again and again; the page runs of the blobs (head page AND overflow pages) must come back
+    #[test]
+    fn cex_commit_growth_plateau_bucket_delete() {
+        let hwm = |db: &DB| -> u64 { db.inner.meta().unwrap().num_pages };
+        let p = tmp("plateau-bucket-delete");
+        let db = OpenOptions::new().pagesize(PS).open(&p).unwrap();
+        put_keys(&db, 0, 20, 100, 1).unwrap();
+        let round = |db: &DB, r: u32| {
+            { let tx = db.tx(true).unwrap(); { let s = tx.create_bucket("scratch").unwrap(); for i in 0..6u32 { s.put(format!("blob{}", i), vec![(r + i) as u8; 5000]).unwrap(); } let n = s.create_bucket("nested").unwrap(); n.put("blob", vec![r as u8; 7000]).unwrap(); } tx.commit().unwrap(); }
+            { let tx = db.tx(true).unwrap(); tx.delete_bucket("scratch").unwrap(); tx.commit().unwrap(); }
+        };
+        for r in 0..15u32 { round(&db, r); }
+        let at15 = hwm(&db);
+        for r in 15..60u32 { round(&db, r); }
+        let at60 = hwm(&db);
+        if at60 > at15 + 24 {
+            println!("CEX C10 (file growth bounded by live data): history (page size 1024): 60 rounds of `create bucket scratch with six 5000-byte values and a nested bucket holding a 7000-byte value, commit; delete bucket scratch, commit`: the page high-water mark is {} after 15 rounds and {} after 60", at15, at60);
+            panic!("c10-growth-bucket-delete");
+        }
+        db.check().unwrap();
+        drop(db);
+        let _ = std::fs::remove_file(&p);
+    }
     // ---- C02 across TWO power losses (no shim: images are built from copies of the file between commits).  Crash 1 tears the header
     // write of a commit at 8-byte word granularity (every subset of the words that differ); the image is reopened, one more commit
     // is made, and crash 2 tears THAT header write the same way.  Every image must reopen, pass check() and show the state before
